@@ -1477,7 +1477,8 @@ class ProcessStartCommandModel(ProcessStartCommand):
         """ Replace the ProcessStatus by a partial copy. """
         mock_process = ProcessStatus(process.application_name, process.process_name, process.rules, process.supvisors)
         mock_process._state = process._state
-        mock_process.info_map = process.info_map.copy()
+        # NOTE: the per-instance payloads are updated by the model, so they have to be copied too
+        mock_process.info_map = {identifier: info.copy() for identifier, info in process.info_map.items()}
         super().__init__(mock_process, strategy)
 
     def start(self) -> None:
@@ -1581,6 +1582,10 @@ class StarterModel(Starter):
                                  for job_list in app_job.planned_jobs.values()
                                  for command in job_list]
         super().next()
+
+    def after(self, application_job: ApplicationStartJobs) -> None:
+        """ Empty method to cancel the application stop possibly requested by the starting failure strategy
+        (it would be performed for real by the Stopper). """
 
     def publish_state_modes(self):
         """ Empty method to cancel states & mode publication. """
